@@ -328,6 +328,21 @@ type JSONObj struct {
 // JSONMember1 is the JSON value {"<Name>": {}}.
 type JSONMember1 struct{ Name Str }
 
+// JSONNum is a JSON number member value.
+type JSONNum struct{ V float64 }
+
+// ModelDecode applies the flat-object model of encoding/json directly (no UnmarshalJSON method involved) to a zero value of
+// the struct type T: what plain encoding/json makes of the document.
+func (m *Machine) ModelDecode(obj JSONObj, T types.Type) (Value, Value) {
+	st, ok := T.Underlying().(*types.Struct)
+	if !ok {
+		panic(m.undecided("ModelDecode into %s", T))
+	}
+	slot := m.Zero(T)
+	err := m.decodeObject(obj, st, &slot)
+	return slot, err
+}
+
 // decodeObject models json.Unmarshal of a JSONObj into a struct: members are matched to fields by json tag (embedded
 // structs are searched like encoding/json does, pointer embeddings allocated on demand); unknown members are ignored.
 func (m *Machine) decodeObject(obj JSONObj, st *types.Struct, slot *Value) Value {
@@ -380,7 +395,42 @@ func (m *Machine) decodeMember(v Value, ft types.Type) (Value, Value) {
 		if b, ok := ft.Underlying().(*types.Basic); ok && b.Kind() == types.String {
 			return x, nil
 		}
+		if _, ok := ft.Underlying().(*types.Interface); ok {
+			return Iface{T: types.Typ[types.String], V: x}, nil
+		}
+		if pt, ok := ft.Underlying().(*types.Pointer); ok {
+			if b, ok := pt.Elem().Underlying().(*types.Basic); ok && b.Kind() == types.String {
+				return m.NewPtr(x, "string member (json model)"), nil
+			}
+		}
 		return nil, mkErr(Lit("json: cannot unmarshal string into Go value of type " + ft.String()))
+	case JSONNum:
+		// a JSON number into float64 / *float64 / an integer type / interface{} / *interface{} (float64 inside, as encoding/json does)
+		var dec func(t types.Type) (Value, Value)
+		dec = func(t types.Type) (Value, Value) {
+			switch u := t.Underlying().(type) {
+			case *types.Basic:
+				switch {
+				case u.Info()&types.IsFloat != 0:
+					return x.V, nil
+				case u.Info()&types.IsInteger != 0:
+					if x.V != float64(int64(x.V)) {
+						return nil, mkErr(Lit("json: cannot unmarshal number into Go value of type " + t.String()))
+					}
+					return int64(x.V), nil
+				}
+			case *types.Interface:
+				return Iface{T: types.Typ[types.Float64], V: x.V}, nil
+			case *types.Pointer:
+				inner, err := dec(u.Elem())
+				if err != nil {
+					return nil, err
+				}
+				return m.NewPtr(inner, "number member (json model)"), nil
+			}
+			return nil, mkErr(Lit("json: cannot unmarshal number into Go value of type " + t.String()))
+		}
+		return dec(ft)
 	case JSONMember1:
 		mt, ok := ft.Underlying().(*types.Map)
 		if !ok {
